@@ -608,7 +608,19 @@ class Run:
         except Exception as e:       # noqa
             self.obs.append(f'{tag} raised {self.exc_name(e)}')
 
+    def validate(self):
+        # every handle an operation names is a declared one (a shrunk scenario that lost a declaration is
+        # not a scenario; undeclared maps and snapshots are observed as `unbound`)
+        import re
+        declared = {ln.split()[1] for ln in self.lines if ln.split()[:1] == ['newhandle']}
+        for ln in self.lines:
+            t = ln.split()
+            if t[:1] in (['op'], ['react']) and \
+                    any(re.fullmatch(r'h\d+', x) and x not in declared for x in t[1:]):
+                raise ValueError(f'undeclared handle in {ln!r}')
+
     def go(self):
+        self.validate()
         for ln in self.lines:
             t = ln.split()
             if not t:
